@@ -72,6 +72,7 @@ let parse_op tok =
   match nm with
   | "asg_c" -> OAsgC (cs 1) | "asg_s" -> OAsgS (str 1) | "asg_fs" -> OAsgFs
   | "ctor_c" -> OCtorC (cs 1) | "ctor_s" -> OCtorS (str 1) | "ctor_mv" -> OCtorMv | "ctor_cp" -> OCtorCp
+  | "ctor_fs" -> OCtorFs
   | "ins_nc" -> OInsNC (num 1, num 2, chr 3)
   | "ins_pc" -> OInsPC (num 1, cs 2, num 3)
   | "ins_c" -> OInsC (num 1, cs 2)
@@ -156,8 +157,13 @@ let run_case w =
   match w with
   | _ :: mode :: cap :: init :: oinit :: ops ->
       let modeD = mode = "D" in
-      let l = n_of_string cap in
-      (match fs_init l (cstr_of_hex init), fs_init l (cstr_of_hex oinit) with
+      (* capacity token: "L" or "L/S" (capacity of the other object) *)
+      let (cl, cs) = match String.split_on_char '/' cap with
+        | [a; b] -> (a, b) | _ -> (cap, cap) in
+      let l = n_of_string cl in
+      let lo = n_of_string cs in
+      let same = (cl = cs) in
+      (match fs_init l (cstr_of_hex init), fs_init lo (cstr_of_hex oinit) with
        | Ok f0, Ok o0 ->
            let prop = Buffer.create 256 and intl = Buffer.create 256 in
            let sep () = if Buffer.length prop > 0 then (Buffer.add_char prop ' '; Buffer.add_char intl ' ') in
@@ -169,7 +175,7 @@ let run_case w =
                   | Some x ->
                       sep ();
                       let spec = if modeD then std_step (abs f) (abs o) x else None in
-                      if (not (pre_A f o x)) || (modeD && spec = None) then begin
+                      if (not (pre_A f o x)) || (not (cap_ok same x)) || (modeD && spec = None) then begin
                         Buffer.add_string prop "ood"; Buffer.add_string intl "-"; go f o rest
                       end else
                         match step l f o x with
@@ -181,7 +187,7 @@ let run_case w =
                                match spec with
                                | Some ((s', os'), rs) ->
                                    let rF = if swapped then "o=" ^ hex_of_bytes (abs o') else ret_str true r in
-                                   let rS = if swapped then "o=" ^ hex_of_bytes (cut l os') else ret_str true rs in
+                                   let rS = if swapped then "o=" ^ hex_of_bytes (cut lo os') else ret_str true rs in
                                    Buffer.add_string prop
                                      (rF ^ ";" ^ hex_of_bytes (abs f') ^ "|" ^ rS ^ ";" ^ hex_of_bytes (cut l s') ^ "|eq;ok")
                                | None -> ()
